@@ -43,6 +43,11 @@ type SessionWindow struct {
 	timeout time.Duration
 	// mu is used to protect concurrent access to window data
 	mu sync.RWMutex
+	// deliverMu orders the hand-over of results: results are built under mu and handed over after
+	// mu is released; deliverMu is taken before mu is released and held until the hand-over is done,
+	// so a late update cannot reach the consumer before the delivery it updates.
+	// Lock order: mu, then deliverMu.
+	deliverMu sync.Mutex
 	// sessionMap stores the open sessions of each key. A key has several open sessions
 	// while events more than the timeout apart are waiting for the watermark (or the
 	// expiry tick) to pass their session's end.
@@ -430,9 +435,11 @@ func (sw *SessionWindow) checkExpiredSessions() {
 	// path does this in checkAndTriggerSessions).
 	sw.closeExpiredSessions(now)
 	callback := sw.callback
+	sw.deliverMu.Lock()
 	sw.mu.Unlock()
 
 	sw.sendResults(resultsToSend, callback)
+	sw.deliverMu.Unlock()
 }
 
 func (sw *SessionWindow) checkAndTriggerSessions(watermarkTime time.Time) {
@@ -441,9 +448,11 @@ func (sw *SessionWindow) checkAndTriggerSessions(watermarkTime time.Time) {
 	resultsToSend := sw.collectExpiredSessions(watermarkTime)
 	sw.closeExpiredSessions(watermarkTime)
 	callback := sw.callback
+	sw.deliverMu.Lock()
 	sw.mu.Unlock()
 
 	sw.sendResults(resultsToSend, callback)
+	sw.deliverMu.Unlock()
 }
 
 func (sw *SessionWindow) collectExpiredSessions(currentTime time.Time) [][]types.Row {
@@ -599,9 +608,11 @@ func (sw *SessionWindow) Trigger() {
 
 	// Capture callback under the lock; release before sending to avoid blocking.
 	callback := sw.callback
+	sw.deliverMu.Lock()
 	sw.mu.Unlock()
 
 	sw.sendResults(resultsToSend, callback)
+	sw.deliverMu.Unlock()
 }
 
 // Reset resets session window data
@@ -699,7 +710,9 @@ func (sw *SessionWindow) triggerLateUpdateLocked(s *session) {
 	// Get callback reference before releasing lock
 	callback := sw.callback
 
-	// Release lock before calling callback and sending to channel to avoid blocking
+	// Release lock before calling callback and sending to channel to avoid blocking;
+	// wait for a hand-over in progress (the session's first delivery) to finish first
+	sw.deliverMu.Lock()
 	sw.mu.Unlock()
 
 	if callback != nil {
@@ -707,6 +720,7 @@ func (sw *SessionWindow) triggerLateUpdateLocked(s *session) {
 	}
 
 	sw.sendResult(resultData)
+	sw.deliverMu.Unlock()
 
 	// Re-acquire lock
 	sw.mu.Lock()
